@@ -12,6 +12,14 @@ Theorem C20_tie :
 Proof. exact (conj Tie_Timer_supported Tie_Timer_flags). Qed.
 Print Assumptions C20_tie.
 
+(* ... and the bodies of Every and Tick as a whole are the ones mirrored (a statement added around the delay expression
+   is an unclassified change) *)
+From Coq Require Import String List.
+From BT Require Model.SkelTie.
+Theorem C20_shapes : SkelTie.shapes_ok_for ("Every" :: "Tick" :: nil)%string = true.
+Proof. vm_compute. reflexivity. Qed.
+Print Assumptions C20_shapes.
+
 (* Every: the timer is armed for the distance to the next whole multiple of d
    strictly after the creation instant — never zero, never a period more. *)
 Theorem C20_every_delay : forall n d, 0 < d ->
